@@ -3,7 +3,7 @@
 (* added by the C04 / C05 operators of module Curve).                         *)
 EXTENDS Curve, JudgeBase
 
-VARIABLE i
+VARIABLES i, rv, rc, d, skip
 
 QV(v) == [k \in 1..Len(v) |-> VScale(QP, v[k])]
 
@@ -34,6 +34,62 @@ JStations(r) ==
           /\ Clause(i, "C01.front_back", /\ StationAllowed(v, closed, r.dim, 0, 0, o.front)
                                          /\ StationAllowed(v, closed, r.dim, 2 * c[Len(v)], 0, o.back))
 
+
+\* ------------------------------------------------------------------ C04
+ClauseB(name, cond) == IF cond THEN TRUE ELSE (PrintT(<<"REJECT", i, name>>) /\ FALSE)
+Dec(e) == IF e[2] = 1 THEN d.T - e[1] ELSE e[1]       \* decode a half-length parameter
+
+PieceOK(tag, nd, o) ==
+    /\ ClauseB("C04." \o tag \o ".some", o.some)
+    /\ ClauseB("C04." \o tag \o ".endpoints", PieceEndpoints(rv, rc, nd, o))
+    /\ ClauseB("C04." \o tag \o ".length", PieceLength(nd, o))
+    /\ ClauseB("C04." \o tag \o ".path", PiecePath(rv, rc, nd, o))
+    /\ ClauseB("C04." \o tag \o ".closed_flag", o.closed = DClosed(rv, rc, nd))
+ResultOK(tag, nd, o) == IF nd = NoCurve THEN ClauseB("C04." \o tag \o ".must_be_none", ~o.some) ELSE PieceOK(tag, nd, o)
+
+\* expected next abstract curve for a (non-root) history record
+NextD(r) ==
+    CASE r.op = "between"    -> DBetween(rv, rc, d, Dec(r.l0), Dec(r.l1))
+      [] r.op = "bycontrol"  -> DByControl(rv, rc, d, Dec(r.a), Dec(r.b), Dec(r.c)).piece
+      [] r.op = "trim_front" -> DBetween(rv, rc, d, Dec(r.x), d.T)
+      [] r.op = "trim_back"  -> DBetween(rv, rc, d, 0, d.T - Dec(r.x))
+      [] r.op = "reversed"   -> DReversed(d)
+      [] r.op = "split_open" ->
+            LET pa == DBetween(rv, rc, d, 0, Dec(r.l)) pb == DBetween(rv, rc, d, Dec(r.l), d.T) IN
+            IF ~DClosed(rv, rc, d) /\ pa # NoCurve /\ pb # NoCurve THEN (IF r.keep = 1 THEN pa ELSE pb) ELSE NoCurve
+      [] r.op = "split_closed" ->
+            LET pa == DBetween(rv, rc, d, Dec(r.l0), Dec(r.l1)) pb == DBetween(rv, rc, d, Dec(r.l1), Dec(r.l0)) IN
+            IF DClosed(rv, rc, d) /\ pa # NoCurve /\ pb # NoCurve THEN (IF r.keep = 1 THEN pa ELSE pb) ELSE NoCurve
+
+HistOps == {"between", "bycontrol", "trim_front", "trim_back", "reversed", "split_open", "split_closed"}
+
+JHist(r) ==
+    LET o == r.out.r nd == NextD(r) IN
+    /\ ClauseB("C04.finite", r.out.finite)
+    /\ CASE r.op \in {"between", "trim_front", "trim_back", "reversed"} -> ResultOK(r.op, nd, o)
+         [] r.op = "bycontrol" ->
+              LET v == DByControl(rv, rc, d, Dec(r.a), Dec(r.b), Dec(r.c)).verdict IN
+              IF v = "free" THEN TRUE ELSE ResultOK(r.op, nd, o)
+         [] r.op = "split_open" ->
+              LET pa == DBetween(rv, rc, d, 0, Dec(r.l)) pb == DBetween(rv, rc, d, Dec(r.l), d.T) IN
+              IF nd = NoCurve THEN ClauseB("C04.split_open.must_fail", ~o.some)
+              ELSE /\ ClauseB("C04.split_open.some", o.some)
+                   /\ PieceOK("split_open.a", pa, o.a) /\ PieceOK("split_open.b", pb, o.b)
+                   /\ ClauseB("C04.split_open.sum", AbsV(o.a.len + o.b.len - (d.T * QC) \div 2) <= 8)
+         [] r.op = "split_closed" ->
+              LET pa == DBetween(rv, rc, d, Dec(r.l0), Dec(r.l1)) pb == DBetween(rv, rc, d, Dec(r.l1), Dec(r.l0)) IN
+              IF nd = NoCurve THEN ClauseB("C04.split_closed.must_fail", ~o.some)
+              ELSE /\ ClauseB("C04.split_closed.some", o.some)
+                   /\ PieceOK("split_closed.a", pa, o.a) /\ PieceOK("split_closed.b", pb, o.b)
+                   /\ ClauseB("C04.split_closed.sum", AbsV(o.a.len + o.b.len - (d.T * QC) \div 2) <= 8)
+
+JRoot(r) ==
+    LET v == Built(r.pts, r.tolU, r.fc, 2) IN
+    /\ ClauseB("C04.root.ok", r.out.ok)
+    /\ ClauseB("C04.root.piece", /\ PieceEndpoints(v, IsClosedV(v, r.tolU, 2), WholeRoot(v), r.out.piece)
+                                 /\ PieceLength(WholeRoot(v), r.out.piece)
+                                 /\ r.out.piece.closed = IsClosedV(v, r.tolU, 2))
+
 Judge(r) ==
     /\ Sane(i, r)
     /\ Ran(r) =>
@@ -41,8 +97,24 @@ Judge(r) ==
           [] r.op = "reset"    -> TRUE
           [] OTHER             -> Clause(i, "unknown-op", FALSE)
 
-Init == i = 1
-Next == i <= Len(Rec) /\ Judge(Rec[i]) /\ i' = i + 1
-Spec == Init /\ [][Next]_i
+Stateless(r) == r.op \in {"stations"}
+
+Init == i = 1 /\ rv = <<>> /\ rc = FALSE /\ d = NoCurve /\ skip = FALSE
+Next ==
+    /\ i <= Len(Rec)
+    /\ i' = i + 1
+    /\ LET r == Rec[i] IN
+       IF r.op = "reset" THEN rv' = <<>> /\ rc' = FALSE /\ d' = NoCurve /\ skip' = FALSE
+       ELSE IF Stateless(r) THEN Judge(r) /\ UNCHANGED <<rv, rc, d, skip>>
+       ELSE IF skip THEN UNCHANGED <<rv, rc, d, skip>>
+       ELSE IF ~Ran(r) THEN Sane(i, r) /\ skip' = TRUE /\ UNCHANGED <<rv, rc, d>>
+       ELSE IF r.op = "root" THEN
+            LET ok == JRoot(r) v == Built(r.pts, r.tolU, r.fc, 2) IN
+            /\ skip' = ~ok /\ rv' = v /\ rc' = IsClosedV(v, r.tolU, 2) /\ d' = WholeRoot(v)
+       ELSE IF r.op \in HistOps THEN
+            LET ok == JHist(r) nd == NextD(r) IN
+            /\ skip' = ~ok /\ d' = (IF nd = NoCurve THEN d ELSE nd) /\ UNCHANGED <<rv, rc>>
+       ELSE Clause(i, "unknown-op", FALSE) /\ UNCHANGED <<rv, rc, d, skip>>
+Spec == Init /\ [][Next]_<<i, rv, rc, d, skip>>
 Post == TLCGet("stats").diameter - 1 = Len(Rec)
 =============================================================================
